@@ -16,7 +16,8 @@ RULE = (
     'pseudo-classes with an+b / ident / string arguments, :not(simple), pseudo-elements in one- and two-colon form; the '
     'four combinators) with the expected specificity and structure computed from the model; each is rendered in the '
     'canonical and 3 random spellings (white space, comments, letter case of pseudo names and :not, hex escapes, quote '
-    'style), parsed stand-alone and attached to a sheet with @namespace rules, and re-read from selectorText. '
+    'style), parsed stand-alone and attached to a sheet with @namespace rules, and re-read from selectorText; the combinator items of '
+    'Selector.seq must be exactly the combinators of the model (white space around comments is no second combinator). '
     'list: sequences of appendSelector / list[i]= / selectorText= with valid, duplicate and invalid members against a '
     'list model. logmode: in error-logging mode a list with one invalid (bracket-balanced) member at every position, through a '
     'parsed sheet (top level and inside @media), SelectorList(), selectorList.selectorText=, rule.selectorText= and '
@@ -55,6 +56,9 @@ def parse_standalone(text, ns):
         return Selector((text, dict(ns)))
 
 
+COMB_TYPES = {' ': 'descendant', '>': 'child', '+': 'adjacent-sibling', '~': 'following-sibling'}
+
+
 def check_spec(case, ctx):
     sel, lvl = case['sel'], case['nslevel']
     ns = nsmap(lvl)
@@ -79,6 +83,12 @@ def check_spec(case, ctx):
             got_struct = M.struct_of_text(out)
             if got_struct != exp_struct:
                 raise Violation('spec:structure', f'{text!r} -> {out!r}: {got_struct} expected {exp_struct}')
+            # the parsed sequence holds exactly the combinators of the model (documented item types)
+            with lib('observe'):
+                got_combs = [i.type for i in s.seq if i.type in COMB_TYPES.values()]
+            exp_combs = [COMB_TYPES[c] for c in sel['combs']]
+            if got_combs != exp_combs:
+                raise Violation('spec:combinators-in-seq', f'{text!r}: seq holds {got_combs}, expected {exp_combs}')
             if canon_out is None:
                 canon_out = out
             # round trip of the serialisation
